@@ -82,6 +82,10 @@ class Generator(SchemaVisitor[Any]):
 
         min_value = schema.props.min if (schema.props.min is not Nil) else FLOAT_MIN
         max_value = schema.props.max if (schema.props.max is not Nil) else FLOAT_MAX
+        if schema.props.max is Nil:
+            max_value = max(max_value, min_value)
+        if schema.props.min is Nil:
+            min_value = min(min_value, max_value)
         precision = schema.props.precision if (schema.props.precision is not Nil) else Nil
 
         if precision is not Nil:
